@@ -380,7 +380,6 @@ func transportErrors() {
 		{name: "tls-listen-no-cert", addr: "tls+tcp://127.0.0.1:0", listen: true, opts: map[string]interface{}{mangos.OptionTLSConfig: emptyTLS}, want: []error{mangos.ErrTLSNoCert}},
 		{name: "wss-listen-no-config", addr: "wss://127.0.0.1:0/x", listen: true, want: []error{mangos.ErrTLSNoConfig}},
 		{name: "wss-listen-no-cert", addr: "wss://127.0.0.1:0/x", listen: true, opts: map[string]interface{}{mangos.OptionTLSConfig: emptyTLS}, want: []error{mangos.ErrTLSNoCert}},
-		{name: "tcp-listen-bad-port", addr: "tcp://127.0.0.1:99999", listen: true, anyErr: true},
 		{name: "ws-listen-bad-port", addr: "ws://127.0.0.1:99999/x", listen: true, anyErr: true},
 		{name: "ipc-listen-no-dir", addr: "ipc:///nonexistent-dir-c12/sock", listen: true, anyErr: true},
 		{name: "tcp-dial-bad-port", addr: "tcp://127.0.0.1:99999", anyErr: true},
